@@ -21,6 +21,68 @@ use warp::filters::BoxedFilter;
 
 use crate::chain::{SharedView, SimChainObserver, SimDigester, SimImmutableObserver};
 
+use async_trait::async_trait;
+use mithril_aggregator::database::record::SignedEntityRecord;
+use mithril_aggregator::database::repository::{SignedEntityStore, SignedEntityStorer};
+use mithril_common::StdResult;
+
+/// The real signed-entity store behind a gate the scheduler opens: an artifact task can only
+/// *complete* (insert its signed entity, release its entity-type lock) inside a `Background`
+/// event. Artifact computation uses real blocking-pool threads (file I/O); gating its only
+/// observable effect keeps "the artifact lands before / between / after the next ticks" a seeded
+/// choice instead of a timing accident.
+pub struct GatedSignedEntityStorer {
+    inner: Arc<SignedEntityStore>,
+    gate: tokio::sync::watch::Sender<bool>,
+}
+
+#[async_trait]
+impl SignedEntityStorer for GatedSignedEntityStorer {
+    async fn store_signed_entity(&self, signed_entity: &SignedEntityRecord) -> StdResult<()> {
+        let mut rx = self.gate.subscribe();
+        while !*rx.borrow_and_update() {
+            if rx.changed().await.is_err() {
+                break;
+            }
+        }
+        self.inner.store_signed_entity(signed_entity).await
+    }
+    async fn get_signed_entity(
+        &self,
+        signed_entity_id: &str,
+        signed_entity_type: &SignedEntityTypeDiscriminants,
+    ) -> StdResult<Option<SignedEntityRecord>> {
+        self.inner.get_signed_entity(signed_entity_id, signed_entity_type).await
+    }
+    async fn get_signed_entity_by_certificate_id(&self, certificate_hash: &str) -> StdResult<Option<SignedEntityRecord>> {
+        self.inner.get_signed_entity_by_certificate_id(certificate_hash).await
+    }
+    async fn get_signed_entities_by_certificates_ids<'a>(&self, certificates_ids: &[&'a str]) -> StdResult<Vec<SignedEntityRecord>> {
+        self.inner.get_signed_entities_by_certificates_ids(certificates_ids).await
+    }
+    async fn get_last_signed_entities_by_type(
+        &self,
+        signed_entity_type_id: &SignedEntityTypeDiscriminants,
+        total: usize,
+    ) -> StdResult<Vec<SignedEntityRecord>> {
+        self.inner.get_last_signed_entities_by_type(signed_entity_type_id, total).await
+    }
+    async fn get_last_signed_entities_by_type_and_epoch(
+        &self,
+        signed_entity_type_id: &SignedEntityTypeDiscriminants,
+        epoch: Epoch,
+        total: usize,
+    ) -> StdResult<Vec<SignedEntityRecord>> {
+        self.inner.get_last_signed_entities_by_type_and_epoch(signed_entity_type_id, epoch, total).await
+    }
+    async fn get_cardano_stake_distribution_signed_entity_by_epoch(&self, epoch: Epoch) -> StdResult<Option<SignedEntityRecord>> {
+        self.inner.get_cardano_stake_distribution_signed_entity_by_epoch(epoch).await
+    }
+    async fn update_signed_entities(&self, signed_entities: Vec<SignedEntityRecord>) -> StdResult<Vec<SignedEntityRecord>> {
+        self.inner.update_signed_entities(signed_entities).await
+    }
+}
+
 #[derive(Clone, Debug)]
 pub struct AggSettings {
     pub protocol_parameters: ProtocolParameters,
@@ -32,6 +94,7 @@ pub struct AggInner {
     pub deps: ServeCommandDependenciesContainer,
     pub routes: BoxedFilter<(warp::reply::Response,)>,
     pub open_message_repository: Arc<OpenMessageRepository>,
+    pub gate: Arc<GatedSignedEntityStorer>,
     // keeps the connections / shared services alive
     _builder: DependenciesBuilder,
 }
@@ -116,6 +179,11 @@ impl AggregatorNode {
             )]));
             b.era_reader = Some(Arc::new(EraReader::new(era_adapter)));
             b.block_scanner = Some(Arc::new(DumbBlockScanner::new()));
+            let gate = Arc::new(GatedSignedEntityStorer {
+                inner: Arc::new(SignedEntityStore::new(b.get_sqlite_connection().await?)),
+                gate: tokio::sync::watch::channel(false).0,
+            });
+            b.signed_entity_storer = Some(gate.clone());
             let deps = b.build_serve_dependencies_container().await?;
             let runtime = b.create_aggregator_runner().await?;
             let routes = b
@@ -124,7 +192,7 @@ impl AggregatorNode {
                 .map(|reply| warp::reply::Reply::into_response(reply))
                 .boxed();
             let open_message_repository = b.get_open_message_repository().await?;
-            anyhow::Ok(AggInner { runtime, deps, routes, open_message_repository, _builder: b })
+            anyhow::Ok(AggInner { runtime, deps, routes, open_message_repository, gate, _builder: b })
         })?;
         self.inner = Some(inner);
         self.restarts += 1;
@@ -153,16 +221,31 @@ impl AggregatorNode {
         self.inner.as_ref().map(|i| i.runtime.state_label().to_string()).unwrap_or("down".into())
     }
 
-    /// Let spawned background tasks (artifact creation) run for `polls` scheduler rounds.
-    pub fn run_background(&mut self, polls: u32) {
-        if self.inner.is_none() {
-            return;
-        }
-        self.rt.block_on(async {
-            for _ in 0..polls {
+    /// Let spawned background tasks (artifact creation) run to completion: the gate of the
+    /// signed-entity store is open only here. Returns false if a task did not finish in time.
+    pub fn run_background(&mut self, _polls: u32) -> bool {
+        let Some(inner) = self.inner.as_ref() else { return true };
+        let lock = inner.deps.signed_entity_type_lock.clone();
+        let gate = inner.gate.clone();
+        let _ = gate.gate.send_replace(true);
+        let mut done = false;
+        for i in 0..40_000u32 {
+            let locked = self.rt.block_on(async {
                 tokio::task::yield_now().await;
+                tokio::task::yield_now().await;
+                lock.has_locked_entities().await
+            });
+            if !locked {
+                done = true;
+                break;
             }
-        });
+            if i > 3 {
+                // an artifact task is waiting for real blocking-pool work (file I/O)
+                std::thread::sleep(std::time::Duration::from_micros(100));
+            }
+        }
+        let _ = gate.gate.send_replace(false);
+        done
     }
 
     /// In-process HTTP request against the real route filter.
